@@ -129,9 +129,11 @@ def asset_dump(report: report_model.FullReport, asset: str, rows: List[Dict[str,
         )
     # ---- balances
     balances: List[Dict[str, Any]] = []
+    holder_totals: Dict[str, Fraction] = {}
     title_row2, data = report.table_rows(tax, "Account Balances", 0, (title_row or 0) + 1)
     for _i, row in data:
         if cellv(row, 0) == "Total" and cellv(row, 2) in (None, ""):
+            holder_totals[str(cellv(row, 1))] = amount11(cellv(row, 6)) or Fraction(0)
             continue
         balances.append({"ex": str(cellv(row, 0)), "ho": str(cellv(row, 1)), "acquired": amount11(cellv(row, 3)), "sent": amount11(cellv(row, 4)), "received": amount11(cellv(row, 5)), "final": amount11(cellv(row, 6))})
     # ---- detail
@@ -167,10 +169,10 @@ def asset_dump(report: report_model.FullReport, asset: str, rows: List[Dict[str,
         )
     if problems:
         return {"ok": False, "error_type": "ReportNotRelatable", "error": "; ".join(problems[:3]), "internal": False}
-    return {"ok": True, "fractions": fractions, "taxable": taxable, "yearly": yearly, "balances": balances, "listed": listed}
+    return {"ok": True, "fractions": fractions, "taxable": taxable, "yearly": yearly, "balances": balances, "holder_totals": holder_totals, "listed": listed}
 
 
-def evaluate_assets(case: Dict[str, Any], tag: str, judge: Any, need_to_date: bool = False) -> Any:
+def evaluate_assets(case: Dict[str, Any], tag: str, judge: Any, failure_is_violation: Tuple[str, ...] = ()) -> Any:
     """Shared evaluate() of the end-to-end tier: run the case, then call judge(out, asset, txs, dump, schedule) per asset."""
     from .runner import Outcome
 
@@ -184,8 +186,14 @@ def evaluate_assets(case: Dict[str, Any], tag: str, judge: Any, need_to_date: bo
     try:
         result, dumps, rows_model = run(case, folder)
         if dumps is None:
-            out.skipped = "e2e_run_failed(C16)"
             bucket = cli_common.crash_bucket(result.text)
+            for fragment in failure_is_violation:
+                # the inputs are valid by construction: a run that dies in the named part of rp2 rejected a valid history
+                if cli_common.aborted_in(result.text, fragment):
+                    last = [line for line in result.text.strip().splitlines() if line.strip()][-1:]
+                    out.fail("valid_history_rejected", f"[end-to-end: rp2_{case['country']}] exit status {result.rc}, {bucket}: {last}")
+                    return out
+            out.skipped = "e2e_run_failed(C16)"
             if bucket:
                 out.classes.add(f"e2e_crash_{bucket}")
             return out
